@@ -199,6 +199,30 @@ def build_item(repo, blk, cache):
             rewrites.append({"id": "R16", "ghost_text_adapted_to_renamed_identifiers": ren})
         else:
             ren = {}
+    # R17: NEW debug assertions.  `debug_assert*!` is compiled out of release builds.  One that is in the baseline text of the function
+    # is kept and verified (its condition is an obligation the unit was written for); one that is NOT in the baseline text is dropped
+    # from the verified text and listed as rewrite R17 - the verdict is then about the release semantics of the function, and a new
+    # debug assertion that can fire (a panic in debug builds only) is not seen by this unit (Verus has no support for
+    # debug_assert_eq!/_ne! at all, and a new debug_assert! is a new obligation without proof text).
+    if item.kind == "fn":
+        global _BASELINE_FNS
+        if _BASELINE_FNS is None:
+            try: _BASELINE_FNS = json.load(open(os.path.join(VC, "baseline_fns.json")))
+            except Exception: _BASELINE_FNS = {}
+        base_txt = _BASELINE_FNS.get("%s :: %s" % (blk.file, blk.path))
+        if base_txt is not None and base_txt != text and "debug_assert" in text:
+            base_norm = rustlex.norm(base_txt)
+            tk = [t for t in rustlex.lex(text) if t.kind != "comment"]
+            n17 = 0
+            for i, t in enumerate(tk):
+                if t.kind == "ident" and t.text in ("debug_assert", "debug_assert_eq", "debug_assert_ne") and i + 2 < len(tk) and tk[i + 1].text == "!" and tk[i + 2].text == "(":
+                    k = rustlex.match_close(tk, i + 2)
+                    end = tk[k].end
+                    if k + 1 < len(tk) and tk[k + 1].text == ";": end = tk[k + 1].end
+                    stmt = text[t.start:end]
+                    if rustlex.norm(stmt) not in base_norm:
+                        add(T0 + t.start, end - t.start, "", "R17"); n17 += 1
+            if n17: rewrites.append({"id": "R17", "new_debug_assertions_dropped": n17})
     # strip inner attributes of struct/enum items (e.g. thiserror's #[error], #[from])
     if item.kind in ("struct", "enum") and blk.strip_inner_attrs:
         toks = item.toks
